@@ -19,6 +19,15 @@
 void *__real_malloc(size_t);
 void *__real_calloc(size_t, size_t);
 void  __real_free(void *);
+#ifdef VERIF_WITH_POOL
+#include "poolalloc.h"
+#else
+static int alloc_mode;
+static bool pool_owns(void *p) { (void)p; return false; }
+static void *pool_alloc_bytes(size_t n, bool zero) { (void)n; (void)zero; return NULL; }
+static void pool_alloc_reset(void) {}
+static void pool_alloc_select(const char *m) { (void)m; }
+#endif
 
 /* ---------------- ledgers ---------------- */
 #define MAXBLK 200000
@@ -55,7 +64,7 @@ static void ledger_del(Ledger *l, Ledger *other, void *p) {
         return;
     }
     l->b[i] = l->b[--l->cnt]; l->frees++;
-    __real_free(p);
+    if (!pool_owns(p)) __real_free(p);
 }
 static bool refuse_now(size_t bytes) {
     op_calls++; site_alloc_calls++;
@@ -65,11 +74,15 @@ static bool refuse_now(size_t bytes) {
 }
 static void *conf_malloc(size_t n) {
     if (refuse_now(n)) return NULL;
-    void *p = __real_malloc(n ? n : 1); ledger_add(&L_conf, p, n); return p;
+    void *p = alloc_mode ? pool_alloc_bytes(n, false) : __real_malloc(n ? n : 1);
+    if (!p) { fprintf(stderr, "harness: backing allocator exhausted\n"); exit(3); }
+    ledger_add(&L_conf, p, n); return p;
 }
 static void *conf_calloc(size_t a, size_t b) {
     if ((b && a > ((size_t)1 << 40) / b) ? (op_calls++, site_alloc_calls++, op_absurd++, true) : refuse_now(a * b)) return NULL;
-    void *p = __real_calloc(a * b ? a * b : 1, 1); ledger_add(&L_conf, p, a * b); return p;
+    void *p = alloc_mode ? pool_alloc_bytes(a * b, true) : __real_calloc(a * b ? a * b : 1, 1);
+    if (!p) { fprintf(stderr, "harness: backing allocator exhausted\n"); exit(3); }
+    ledger_add(&L_conf, p, a * b); return p;
 }
 static size_t block_size(void *p) { size_t n = ledger_size(&L_conf, p); return n ? n : ledger_size(&L_libc, p); }
 static void conf_free(void *p) { ledger_del(&L_conf, &L_libc, p); }
@@ -135,7 +148,7 @@ static void o_cb(void) { O_LIST("cb"); for (size_t i = 0; i < cb_n; i++) o_item(
 static void do_op(Cmd *c);       /* executes one op, writes obs and phys sections via o() */
 static void shim_reset(void);    /* forget all session objects (their blocks were released by the ledger) */
 static void ledger_reset(void) {
-    for (size_t i = 0; i < L_conf.cnt; i++) __real_free(L_conf.b[i].p);
+    for (size_t i = 0; i < L_conf.cnt; i++) if (!pool_owns(L_conf.b[i].p)) __real_free(L_conf.b[i].p);
     for (size_t i = 0; i < L_libc.cnt; i++) __real_free(L_libc.b[i].p);
     L_conf.cnt = L_libc.cnt = 0; ledger_errors = 0; ledger_msg[0] = 0;
 }
@@ -159,7 +172,7 @@ int main(void) {
     setvbuf(stdout, NULL, _IOFBF, 1 << 16);
     while (fgets(line, sizeof line, stdin)) {
         if (line[0] == '#' || line[0] == '\n') { puts("C #"); fflush(stdout); continue; }
-        if (!strncmp(line, "reset", 5)) { shim_reset(); ledger_reset(); default_mode = 0; puts("C reset"); fflush(stdout); continue; }
+        if (!strncmp(line, "reset", 5)) { shim_reset(); ledger_reset(); pool_alloc_reset(); default_mode = 0; puts("C reset"); fflush(stdout); continue; }
         Cmd c; parse_cmd(line, &c);
         /* per-op reset */
         L_conf.allocs = L_conf.frees = L_libc.allocs = L_libc.frees = 0;
@@ -168,6 +181,7 @@ int main(void) {
         const char *f = kv_str(&c, "fail", NULL);
         if (f) { char tmp[128]; strncpy(tmp, f, 127); tmp[127] = 0; char *sv = NULL;
             for (char *t = strtok_r(tmp, ",", &sv); t && nfail < 16; t = strtok_r(NULL, ",", &sv)) fail_at[nfail++] = strtoull(t, NULL, 10); }
+        if (!strncmp(c.op, "new", 3)) pool_alloc_select(kv_str(&c, "alloc", NULL));
         do_op(&c);
         nfail = 0;
         o_sep(); o_mem();
